@@ -17,13 +17,13 @@ func init() {
 			"D3 overlap enumeration — the source range is [old.LowerBound(i)·scale, old.LowerBound(i+1)·scale), the target loop starts at new.Index(lower) and continues while new.LowerBound(out) < upper, the weight sent is count·(min(outHi,inHi) − max(outLo,inLo))/(inHi − inLo) and goes to the target store at the loop's own index. "+
 			"D4 no negative weight — on every path reaching the target AddWithCount the overlap size (numerator of the proportion) is established positive or non-negative by a dominating comparison with 0 (or clamped with max(0,·)); count > 0 and inHi − inLo > 0 are axioms (ForEach yields positive weights; LowerBound is increasing and scale > 0). "+
 			"D5 exact statistics are rescaled by the factor — the exact variant's ChangeMapping returns {inner.ChangeMapping(…, scale), a Copy() of the statistics rescaled exactly once by that same scale} and never writes the receiver's statistics; SummaryStatistics.Rescale scales sum and compensation, orders min/max by the sign of the factor and never touches the count (C10-D1/D3 obligations re-evaluated here). "+
-			"SHARED (obligations of other properties that decide clauses this property states too, re-evaluated here under their home rule ids): C19-D2/D3 (Equals of the mappings, on which the identity shortcut rests). C14-D2 (the identity shortcut returns Copy(): every Copy defines every field — bin limits and flags included — and is deep). "+
+			"SHARED (obligations of other properties that decide clauses this property states too, re-evaluated here under their home rule ids): C19-D2/D3 (Equals of the mappings, on which the identity shortcut rests). C14-D2 (the identity shortcut returns Copy(): every Copy defines every field — bin limits and flags included — and is deep). C03-D1/D2 (Index of every mapping kind is floor(log_like(v)·multiplier + indexOffset) and LowerBound / Value invert exactly that term — the general path starts at newMapping.Index of the first old bound and walks LowerBound of both mappings, so a target mapping with a non-zero offset is placed correctly). "+
 			"NOT DECIDED: conservation of total weight up to rounding, the combined accuracy bound, rank distance.",
 		"one obligation per ChangeMapping path, per overlap term, per path reaching the weighted add",
 		false, runC17)
 	register("C11",
 		"DECIDED (the clause 'never a value from an empty side of the sketch'): on every CFG path on which GetValueAtQuantile answers from the negative store, that store is known non-empty — either by an explicit emptiness/total test, or because the path took `rank < negative.TotalCount()` with a rank that is a non-negative constant or passed a `rank ≥ 0` test on the same path (so TotalCount() > rank ≥ 0). D2–D5 (shared obligations re-evaluated for weighted histories): AddWithCount forwards the weight unchanged to the side the value belongs to (C01-D1); the rank is q·(W−1) over the total weight and split between the sides by their totals (C01-D2); every store's KeyAtRank selects the first bin whose cumulative weight strictly exceeds the rank in index order (C01-D3); DDSketch.Reweight scales the zero weight and both stores by the same factor (C16-D1). "+
-			"SHARED (obligations of other properties that decide clauses this property states too, re-evaluated here under their home rule ids): C16-D2 (every store body scales everything it holds) and the exact variant's Reweight wrapper as C11-D6 (the statistics are reweighted — not rescaled — with the same factor after the inner sketch). C12-D4 (the batch quantile query stores exactly the single-query answer per element). "+
+			"SHARED (obligations of other properties that decide clauses this property states too, re-evaluated here under their home rule ids): C16-D2 (every store body scales everything it holds) and the exact variant's Reweight wrapper as C11-D6 (the statistics are reweighted — not rescaled — with the same factor after the inner sketch). C12-D1 (GetMinValue / GetMaxValue answer from the correct end of the correct side in the documented order). The exact variant's AddWithCount wrapper as C11-D7 (the inner sketch absorbs the value with the given weight — its quantiles stay the weighted ones). C12-D4 (the batch quantile query stores exactly the single-query answer per element). "+
 			"NOT DECIDED: 'within one unit of weight of q·(W−1)', 'within alpha of an absorbed value', and emptiness of the positive side on the final branch (needs the relational fact rank ≤ count−1).",
 		"one obligation per path answering from the negative store",
 		false, runC11)
@@ -45,6 +45,9 @@ func runC17(c *Ctx) {
 	c.shared(func() { c19Equals(c, mappingInfos(c, "C17")) }, func(o *Obligation) bool { return true })
 	// … and returns Copy(): "an exact copy" is the C14-D2 obligation of every Copy in the module (fields, limits, deep)
 	c.shared(func() { c14Copies(c, a) }, func(o *Obligation) bool { return true })
+	// the general path places every old bin by newMapping.Index / LowerBound of the target and old bounds of the source:
+	// the index formula of every mapping kind and its inverses (C03-D1 / C03-D2, index offset included)
+	c.shared(func() { runC03(c) }, func(o *Obligation) bool { return o.Rule == "C03-D1" || o.Rule == "C03-D2" })
 }
 
 func c17Table(c *Ctx, a *sketchAnchors) {
@@ -487,6 +490,10 @@ func runC11(c *Ctx) {
 	c10Wrappers(c, a, "C11-D6", "Reweight")
 	// the batch query answers each quantile exactly like the single query (same clamps, same branch selection)
 	c.shared(func() { c12Batch(c, a) }, func(o *Obligation) bool { return true })
+	// "between the reported minimum and maximum": the extremes are read from the right end of the right store
+	c.shared(func() { c12Extremes(c, a) }, func(o *Obligation) bool { return true })
+	// the variant with exact statistics forwards value AND weight to the inner sketch
+	c10Wrappers(c, a, "C11-D7", "AddWithCount")
 	f := c.P.DeclaredMethod(a.DDSketch, "GetValueAtQuantile")
 	if !c.mustFunc(rule, f, "(*DDSketch).GetValueAtQuantile") {
 		return
